@@ -673,7 +673,7 @@ FLEET['G25'] = dict(
     nterms=['list', 'item'],
     root='list',
     rules=[
-        ('item', ['word'], 'plain'),
+        ('item', ['word'], 'tokref'),      # (const Payload& t) -> const Payload&: the value is built from the reference
         ('list', ['item'], 'plain'),
         ('item', ['hex'], 'ctx'),
         ('list', ['list', 'comma', 'item'], 'plain'),
